@@ -56,7 +56,7 @@ Theorem c07_forged_reference_refused : forall W (S : sem W) (s : hst W) seq h ke
   exists s', handle_msg S default_config Gen_handlers.handlers Gen_handlers.dispatch Gen_handlers.msg_ladder
                Gen_handlers.unbox_ladder Gen_handlers.box_ladder msg answers s = (s', OExc seq (XStd KeyError))
     /\ wst s' = wst s /\ tbl s' = tbl s /\ tr s' = EMiss key :: EMsg :: tr s /\ closed s' = false.
-Proof. intros W S. exact (forged_reference_refused S). Qed.
+Proof. intros W S. exact (forged_reference_refused S _ _). Qed.
 Print Assumptions c07_forged_reference_refused.
 
 (* 2. Whatever the implementation touches, probes, accesses by name, lends or pickles is an object the current request holds
@@ -201,7 +201,7 @@ Print Assumptions c07_class_lookup_never_imports.
 
 (* 8. Tie to the generated facts of the current source tree. *)
 Theorem c07_tie :
-  Gen_handlers.handlers = Hostile.handlers /\ Gen_handlers.dispatch = Hostile.dispatch /\
+  Gen_handlers.handlers = Hostile.handlers_of Gen_handlers.cmp_guard Gen_handlers.ctx_catches_all /\ Gen_handlers.dispatch = Hostile.dispatch /\
   Gen_handlers.msg_ladder = Hostile.msg_ladder /\ Gen_handlers.unbox_ladder = Hostile.unbox_ladder /\
   Gen_handlers.box_ladder = Hostile.box_ladder /\ Gen_handlers.getitem_plain = true /\ Gen_handlers.serve_all_closes = true /\
   Gen_attrpolicy.decode_guarded = c_guard default_config /\ Gen_handlers.class_lookup_mode = c_cls_mode default_config /\
@@ -218,7 +218,7 @@ Definition ex_key (i : Z) : pyval := PTuple [PStr (txt "K"); PInt 1; PInt i].
 Definition ex_obj (key : pyval) (ty : oid) (attrs : list (text * aval)) (call : aval) : odesc :=
   {| od_key := key; od_type := ty; od_class := false; od_attrs := attrs; od_hooks := (false, false, false); od_hookres := ANone;
      od_call := call; od_iter := None; od_repr := txt "<obj>"; od_str := txt "obj"; od_hash := AV (PInt 7); od_dir := [];
-     od_bool := true; od_methods := PTuple [] |}.
+     od_bool := true; od_methods := PTuple []; od_callable := true |}.
 Definition ex_world : world :=
   {| w_objs := [ex_obj (ex_key 0) 2%N [(txt "exposed_get", AO 1%N); (txt "secret", AO 1%N); (txt "_priv", AV (PInt 5))] ANone;
                 ex_obj (ex_key 1) 2%N [] (AV (PInt 42));
@@ -309,3 +309,32 @@ Definition ex_final2 : hst unit :=
 Example c07_exception_payload_repr_witness :
   In (EPayload 3%N OpRepr) (tr ex_final2) /\ (forall k, ~ In (EBox k 3%N) (tr ex_final2)) /\ tbl ex_final2 = [(ex_key 0, 0%N, 0%Z)].
 Proof. vm_compute. repeat split; try reflexivity; [tauto|]. intros k H. intuition discriminate. Qed.
+
+(* 9. The comparison route after its repair (generated fact cmp_guard = Some names): a CMP request -- handler number 11 as any
+      numeric value, ANY arguments -- performs by-name accesses of the comparison names only; no other attribute of type(obj)
+      can be reached on this route however the policy classifies it.  On a tree without the guard (cmp_guard = None) the
+      hypothesis fails and c07_cmp_route_refuted_when_unguarded shows the route reaching __bool__. *)
+Theorem c07_cmp_route_serves_only_comparisons : Gen_handlers.cmp_guard = Some Hostile.CMP_NAMES ->
+  forall W (S : sem W) seq h pkg (s s' : hst W) o, num_of h = Some 11%Z ->
+  dispatch_request S default_config Gen_handlers.handlers Gen_handlers.dispatch Gen_handlers.unbox_ladder Gen_handlers.box_ladder
+                   seq (PTuple [h; pkg]) s = (s', o) ->
+  arel Hostile.CMP_NAMES s s'.
+Proof.
+  intros Hg W S seq h pkg s s' o Hn E. eapply guarded_request_listed; [|exact E].
+  intros h' pkg' d U Hf. cbn in U. injection U as <- <-. unfold find_handler in Hf. rewrite Hn in Hf.
+  rewrite dispatch_tie in Hf. cbn [assoc_z Hostile.dispatch Z.eqb Pos.eqb] in Hf. rewrite handlers_tie, Hg in Hf.
+  destruct Gen_handlers.ctx_catches_all; cbn in Hf; injection Hf as <-; split; vm_compute; repeat constructor.
+Qed.
+Print Assumptions c07_cmp_route_serves_only_comparisons.
+
+Definition ex_world3 : world :=
+  {| w_objs := [ex_obj (ex_key 0) 1%N [] ANone; ex_obj (ex_key 1) 2%N [(txt "__bool__", AO 0%N); (txt "__eq__", AO 0%N)] ANone; ex_obj (ex_key 2) 2%N [] ANone];
+     w_builtin := [] |}.
+Definition cmp_session (name : string) : list (@input unit) := [req 1 3 []; req 2 11 [Lr (ex_key 0); Lr (ex_key 0); V (S' name)]].
+Definition run3 (H : list (string * hdef)) (name : string) : hst unit :=
+  run (world_sem ex_world3 [] []) default_config H Hostile.dispatch Hostile.msg_ladder Hostile.unbox_ladder Hostile.box_ladder (init tt) (cmp_session name).
+Example c07_cmp_route_refuted_when_unguarded :
+  In (EAttr 1%N PGet (txt "__bool__") [0%N]) (tr (run3 (handlers_of None false) "__bool__")) /\
+  (forall ys, ~ In (EAttr 1%N PGet (txt "__bool__") ys) (tr (run3 (handlers_of (Some CMP_NAMES) false) "__bool__"))) /\
+  In (EAttr 1%N PGet (txt "__eq__") [0%N]) (tr (run3 (handlers_of (Some CMP_NAMES) false) "__eq__")).
+Proof. vm_compute. split; [tauto|split; [intros ys H; intuition discriminate|tauto]]. Qed.
